@@ -15,7 +15,7 @@ TECHNIQUE = (
 )
 RULE = (
     "documents = all concatenations of <=k fragments of A0 (plain) / decorated fragments (markup); all "
-    "fragment-edit and character-edit mutations of 8 templates within the edit bound; complete slot product of generated legal mark-up (C19's documents), each cleaned with 3 step lists forwards and backwards in one execution. distinct = distinct "
+    "fragment-edit and character-edit mutations of 8 templates within the edit bound; every <= 3-fragment document containing a transform-sensitive fragment (typographic spaces, decomposed accents, ligatures, full-width digits); complete slot product of generated legal mark-up (C19's documents), each cleaned with 3 step lists forwards and backwards in one execution. distinct = distinct "
     "(tokenizer, mode, text); non-trivial = extraction returned >=1 citation (every returned citation is checked)."
 )
 ASSUMPTIONS = [
@@ -118,6 +118,8 @@ def shards(tier, seed):
     # generated legal mark-up (the C19 slot product: case name / citation / later mentions in style tags), each document
     # cleaned with the three step lists in both orders within one execution
     out += dd.residue_shards("markup-docs-AC", "mkdocs", "AC", 32)
+    for tok in ("AC", "HS"):
+        out += dd.residue_shards("transform-sensitive-" + tok, "ts", tok, 16)
     for ti in range(len(TEMPLATES)):
         for tok in ("AC", "HS"):
             out += dd.residue_shards("fragedit-" + tok, "fe", tok, 16 if d["FE"] > 1 else 2, {"t": ti, "edits": d["FE"]})
@@ -133,6 +135,8 @@ def cases_of(sh):
         return pumped_cases(sh)
     if sh["kind"] == "seq":
         return dd.seq_cases(sh, ALPHABETS)
+    if sh["kind"] == "ts":
+        return ({"part": sh["part"], "tok": sh["tok"], "text": t} for t in dd.sliced(docspace.ts_documents(3), sh["r"], sh["n"]))
     if sh["kind"] == "mkdocs":
         from mc.props import c19
 
